@@ -86,6 +86,18 @@ def kernels(tier, seed):
                 ks.append(("overflow<rounding<%s,nearest>,%s> ops" % (ln, tn), "c06::total_forms<c06::%s,%s,0>" % (tc, lc)))
             if thorough or (n + seed) % 3 == 1:
                 ks.append(("%s shifted by overflow_integer<%s,%s> count" % (ln, ln, tn), "c06::total_forms<c06::%s,%s,1>" % (tc, lc)))
+    # C07 only: a scaled_integer source converted to a built-in integer under a checked tag (convert<> and the overflow_integer constructor)
+    n = 0
+    for (rc, rn) in (INTS[0], INTS[2], INTS[4], INTS[5], INTS[6]):
+        for e in (-4, 1, 10):
+            for (dc, dn) in (INTS[4], INTS[2], INTS[7], INTS[6]):
+                n += 1
+                if not (thorough or (n + seed) % 5 == 0 or (rn == "i32" and dn == "i32")):
+                    continue
+                tc, tn = TAGS[(n + seed) % 3]
+                ep = "E_OPERATE" if (n // 3 + seed) % 2 == 0 else "E_WRAPPER"
+                ks.append(("convert<%s>(scaled<%s,2^%d>->%s) %s" % (tn, rn, e, dn, "convert" if ep == "E_OPERATE" else "ctor"),
+                           "c06::convert_scaled<c06::%s,%s,%d,%s,c06::%s>" % (tc, rc, e, dc, ep)))
     return [(d, '%s("%s");' % (c, d)) for d, c in ks]
 
 
